@@ -229,6 +229,38 @@ def _trace_module_source_file(module: str) -> str | None:
             sys.path.pop()
 
 
+_ALL_ASSIGN_TEMPLATE = ast.Assign(
+    targets=[ast.Name(id="__all__")],
+    value=(
+        ast.List(elts={ast.Constant(value=str)}),
+        ast.Tuple(elts={ast.Constant(value=str)}),
+    ),
+)
+_ALL_EXTEND_TEMPLATE = ast.Call(
+    func=ast.Attribute(value=ast.Name(id="__all__"), attr="extend"),
+    args=[(
+        ast.Tuple(elts={ast.Constant(value=str)}),
+        ast.List(elts={ast.Constant(value=str)}),
+)],)
+_ALL_APPEND_TEMPLATE = ast.Call(
+    func=ast.Attribute(value=ast.Name(id="__all__"), attr="append"), args=[str]
+)
+
+
+def _export_list_is_opaque(root: ast.Module) -> bool:
+    """Whether __all__ is built in some way that is not read here: +=, a sum, names of objects.
+
+    The ways that are read mention __all__ once each.
+    """
+    understood = (
+        len(list(core.filter_nodes(root.body, _ALL_ASSIGN_TEMPLATE)))
+        + len(list(core.walk(root, _ALL_EXTEND_TEMPLATE)))
+        + len(list(core.walk(root, _ALL_APPEND_TEMPLATE)))
+    )
+    mentions = len(list(core.walk(root, ast.Name(id="__all__"))))
+    return mentions != understood
+
+
 def _is_opaque_star_import(node: ast.ImportFrom) -> bool:
     """Whether trace_origin() gives up on what `from module import *` binds."""
     if node.level or node.module is None:
@@ -243,11 +275,11 @@ def _is_opaque_star_import(node: ast.ImportFrom) -> bool:
 
     try:
         with open(origin, "r", encoding="utf-8") as stream:
-            core.parse(stream.read())
+            origin_root = core.parse(stream.read())
     except (OSError, UnicodeDecodeError, SyntaxError):
         return True  # The other module cannot be read, or is not valid python
 
-    return False
+    return _export_list_is_opaque(origin_root)
 
 
 @functools.lru_cache(maxsize=100_000)
@@ -315,6 +347,9 @@ def trace_origin(
         )
         all_filter: Set[str] = set()
         all_nodes = tuple(core.filter_nodes(root.body, all_template))
+
+        if _export_list_is_opaque(root):
+            return None  # Neither "exported" nor "not exported" can be said of any name
 
         if all_nodes:
             for node in all_nodes:
